@@ -390,6 +390,12 @@ func (g *Gen) emit(t *TxSpec) int {
 			t.Fee2Den, t.Fee2Amt = "uatom", "50"
 		}
 	}
+	// the standard delegation path with no delegation needed: the signer wraps its own single message in MsgExec
+	if len(t.Msgs) == 1 && t.SignOver == nil && t.Signers == nil && t.ReplayOf == 0 && customURLs[t.Msgs[0].T] != "" && g.rng.Chance(0.06) {
+		if who := selfActor(&t.Msgs[0]); who != "" {
+			t.Msgs = []MsgSpec{{T: "authz.Exec", F: map[string]string{"grantee": who}, Inner: []MsgSpec{t.Msgs[0]}}}
+		}
+	}
 	g.steps = append(g.steps, Step{K: "tx", ID: id, Tx: t})
 	g.specs[id] = t
 	// plan: honest transactions are assumed to be applied in order
@@ -438,6 +444,22 @@ func (g *Gen) emit(t *TxSpec) int {
 		}
 	}
 	return id
+}
+
+// selfActor: the single account a message names as its actor (empty for two-signer add-records)
+func selfActor(m *MsgSpec) string {
+	if m.T == "aol.AddRecord" {
+		if m.F["fee_payer"] != "" && m.F["fee_payer"] != m.F["writer"] {
+			return ""
+		}
+		return m.F["writer"]
+	}
+	for _, k := range []string{"owner", "from", "creator", "updater", "remover", "sender", "burner"} {
+		if v, ok := m.F[k]; ok {
+			return v
+		}
+	}
+	return ""
 }
 
 func (g *Gen) tx(msgs ...MsgSpec) int { return g.emit(&TxSpec{Msgs: msgs}) }
@@ -755,6 +777,23 @@ func (g *Gen) famDid() {
 		return
 	}
 	i := r.Intn(len(keys))
+	if r.Chance(0.12) {
+		// two messages for the same DID in ONE transaction: the second proof is made over the sequence the first one leaves
+		from := g.addr(r.Intn(NumAccounts))
+		first := MsgSpec{T: "did.Update", F: map[string]string{"did": did, "from": from}, Doc: g.didDoc(did, []int{keys[i]}, 0), Proof: &ProofSpec{Key: keys[i], MethodID: mids[i], Seq: "cur"}}
+		var second MsgSpec
+		if r.Chance(0.5) {
+			second = MsgSpec{T: "did.Update", F: map[string]string{"did": did, "from": from}, Doc: g.didDoc(did, []int{keys[i]}, 0), Proof: &ProofSpec{Key: keys[i], MethodID: mids[i], Seq: "cur+1"}}
+		} else {
+			second = MsgSpec{T: "did.Deactivate", F: map[string]string{"did": did, "from": from}, Proof: &ProofSpec{Key: keys[i], MethodID: mids[i], Seq: "cur+1"}}
+		}
+		id := g.emit(&TxSpec{Msgs: []MsgSpec{first, second}})
+		g.didTx = append(g.didTx, didRef{id, did})
+		if second.T == "did.Deactivate" && r.Chance(0.6) { // and straight after it, in the same block: create again
+			g.tx(MsgSpec{T: "did.Create", F: map[string]string{"did": did, "from": from}, Doc: g.didDoc(did, []int{keys[i]}, 0), Proof: &ProofSpec{Key: keys[i], MethodID: mids[i], Seq: "0"}})
+		}
+		return
+	}
 	if r.Chance(0.15) {
 		// an update that re-submits exactly the stored document (still consumes a sequence number)
 		id := g.tx(MsgSpec{T: "did.Update", F: map[string]string{"did": did, "from": g.addr(r.Intn(NumAccounts)), "same_doc": "1"}, Doc: g.didDoc(did, []int{keys[i]}, 0),
